@@ -246,3 +246,92 @@ def triangular_affine(ctx):
             pt2 = run("transform", xi)
             if pt2 is not None:
                 ctx.oblige(f"C01/TriangularAffine[{tag}]/rt2", z3.simplify(to_real(lift(pt2.value))) == Y0(d_), H + pi2.cond + pt2.cond, props, fn=f"{Q}.transform", replay=rp)
+
+
+@family("triangular/MultivariateNormal", ["C05", "C11"])
+def multivariate_normal(ctx):
+    """MultivariateNormal(loc, cov) = StandardNormal pushed through TriangularAffine(loc, cholesky(cov)); the accessors reproduce loc
+    and cov.  T3 (jnp.linalg.cholesky): L is lower triangular with a strictly positive diagonal and L @ L.T == cov."""
+    it = ctx.new_interp()
+    from .wrappers import install as winstall
+    from .params11 import env11, defined_and
+    winstall(it)
+    env11(it)
+    la = tri_lib(it)
+    props = ["C05", "C11"]
+    MQ = "flowjax.distributions.MultivariateNormal"
+    COV = z3.Function("covariance", I, I, R)
+    LCH = z3.Function("cholesky_factor", I, I, R)
+    L0 = z3.Function("loc", I, R)
+    cov = MV(dim, dim, lambda r, c: COV(r, c))
+    chol_calls = []
+
+    def cholesky(m):
+        chol_calls.append(m)
+        return MV(dim, dim, lambda r, c: LCH(r, c))
+
+    it.lib.overrides["jax.numpy.linalg.cholesky"] = cholesky
+    state = {}
+
+    def isfinite(v):
+        if isinstance(v, SV) and z3.simplify(v.e).eq(LCH(d_, d_)):
+            return SV(z3.BoolVal(True), True)
+        return SV(defined_and(it.side, state.get("start", 0)), True)
+
+    it.lib.overrides["jax.numpy.isfinite"] = isfinite
+    it.global_overrides["flowjax.bijections.affine"] = {"arraylike_to_array": lambda a, *r, **k: a}
+    products = []
+
+    def matmul(A, B):
+        if isinstance(A, MV) and isinstance(B, MV):
+            products.append((A, B))
+            return ("matrix_product", A, B)
+        return la.matvec(A, B)
+
+    MV._matvec = staticmethod(matmul)
+    made = {}
+    class StdNormal:
+        cond_shape = None
+
+        def __init__(self, shape=()):
+            self.shape = shape
+            made["base"] = ("StandardNormal", shape)
+
+    it.global_overrides["flowjax.distributions"] = {"StandardNormal": StdNormal}
+    cls = it.repo_class(MQ)
+    loc = vec(lambda i: L0(i))
+
+    def build():
+        state["start"] = len(it.side)
+        return cls(loc, cov)
+
+    t3 = [z3.Implies(c_ > r_, LCH(r_, c_) == 0), LCH(r_, r_) > 0, LCH(d_, d_) > 0]  # cholesky factor: lower triangular, positive diagonal (instances at the generic indices)
+    rng = [dim >= 1, r_ >= 0, r_ < dim, c_ >= 0, c_ < dim, d_ >= 0, d_ < dim]
+    paths = it.explore(build)
+    ok = [p for p in paths if p.outcome == "return"]
+    fq = MQ + ".__init__"
+    rp = dict(kind="c05", what="mvn", vars={})
+    ctx.oblige("C05/MultivariateNormal.__init__/struct/has_success_path", len(ok) == 1, [], props, kind="struct", fn=fq)
+    for n_, p in enumerate(paths):
+        if p.outcome == "raise":
+            # with a proper Cholesky factor (positive diagonal) the constructor never rejects
+            ctx.oblige(f"C11/MultivariateNormal.__init__/post/never_rejects_a_cholesky_factor#{n_}", z3.BoolVal(False), rng + t3 + p.cond, props, fn=fq, replay=rp)
+    if len(ok) != 1:
+        return
+    o, c0 = ok[0].value, ok[0].cond
+    ctx.oblige("C05/MultivariateNormal.__init__/struct/cholesky_of_the_given_covariance", len(chol_calls) >= 1 and all(m_ is cov for m_ in chol_calls), [], props, kind="struct", fn=fq)
+    base_ok = made.get("base", (None, None))
+    ctx.oblige("C05/MultivariateNormal.__init__/struct/standard_normal_base_of_the_bijection_shape", base_ok[0] == "StandardNormal" and base_ok[1] is getattr(o.bijection, "shape", None), [], props, kind="struct", fn=fq)
+    pl = it.explore(lambda: o.loc)
+    if len(pl) == 1 and pl[0].outcome == "return":
+        ctx.oblige("C11/MultivariateNormal.loc/post/reproduces_loc", at(pl[0].value, d_) == L0(d_), rng + c0 + pl[0].cond, props, fn=MQ + ".loc", replay=rp)
+    products.clear()
+    pc = it.explore(lambda: o.covariance)
+    okc = len(pc) == 1 and pc[0].outcome == "return" and isinstance(pc[0].value, tuple) and pc[0].value[0] == "matrix_product"
+    ctx.oblige("C11/MultivariateNormal.covariance/struct/is_a_matrix_product", bool(okc), [], props, kind="struct", fn=MQ + ".covariance")
+    if okc:
+        _tag, A, B = pc[0].value
+        H = rng + t3 + [z3.substitute(h, (d_, r_)) for h in c0 + pc[0].cond] + c0 + pc[0].cond
+        ctx.oblige("C11/MultivariateNormal.covariance/post/left_factor_is_the_cholesky_factor", A.f(r_, c_) == LCH(r_, c_), H, props, fn=MQ + ".covariance", replay=rp,
+                   rounds=3, extra_terms=[UF["exp"](LCH(r_, r_)), UF["exp"](A.f(r_, r_))], note="then A @ A.T == L @ L.T == covariance (T3 of cholesky)")
+        ctx.oblige("C11/MultivariateNormal.covariance/post/right_factor_is_its_transpose", B.f(r_, c_) == A.f(c_, r_), H, props, fn=MQ + ".covariance", replay=rp)
